@@ -73,11 +73,23 @@ type core struct {
 	parkPos string         // "before" (not yet at the store) | "after" (applied / lost, reply not delivered)
 	parked  chan struct{}
 	release chan struct{}
+
+	// scenario (vi): after the Unlock of the tenure under study the SAME Locker is locked again. For the
+	// model of tenure 1 that second tenure is one more contender (number 4): its Create/Delete are
+	// recorded as ContenderTry/ContenderUnlock, its first Create is held in flight by the gate.
+	phase2         bool
+	createSeen     bool
+	createInFlight int
+	createParked   chan struct{}
+	createRelease  chan struct{}
+	vers2          map[string]bool // versions written by calls of phase 2 (not the tenure under study)
+	hardOdd        []string        // things no delay can cause
 }
 
 func newCore(inner kvs.Storage, ttl time.Duration) *core {
 	return &core{inner: inner, base: time.Now(), ttl: ttl, vers: map[string]int64{}, faults: map[int]string{},
-		parked: make(chan struct{}, 1), release: make(chan struct{})}
+		parked: make(chan struct{}, 1), release: make(chan struct{}),
+		createParked: make(chan struct{}, 1), createRelease: make(chan struct{}), vers2: map[string]bool{}}
 }
 
 func (c *core) ts() int64 { return int64(time.Since(c.base)) }
@@ -105,9 +117,50 @@ func (c *core) rel(t *time.Time) int64 {
 
 type holderView struct{ c *core }
 
+// create2: a Create of the holder's Locker after the tenure under study has ended
+func (v holderView) create2(ctx context.Context, r kvs.Record) (string, error) {
+	c := v.c
+	if c.stopped {
+		c.mu.Unlock()
+		return "", errInjected
+	}
+	c.createInFlight++
+	if c.createInFlight > 1 {
+		// the local token of a Locker admits one acquisition at a time, and its retry loop issues one
+		// Create after the other: a second Create in flight was not issued by Lock/TryLock/LockWithCtx
+		c.hardOdd = append(c.hardOdd, "a Create for the holder's Locker while another Create of the same Locker is in flight: issued outside Lock/TryLock/LockWithCtx (by the renewal of the finished tenure)")
+	}
+	first := !c.createSeen
+	c.createSeen = true
+	c.mu.Unlock()
+	if first {
+		c.createParked <- struct{}{}
+		<-c.createRelease
+	}
+	c.mu.Lock()
+	defer c.mu.Unlock()
+	c.createInFlight--
+	exp := c.rel(r.ExpiresAt)
+	t0 := c.ts()
+	ver, err := c.inner.Create(ctx, r)
+	t1 := c.ts()
+	switch {
+	case err == nil:
+		id := c.newVer(ver)
+		c.vers2[ver] = true
+		c.add(event{t: t1, kind: kContTry, n: 4, res: fmt.Sprintf("(RCreated %d)", id), rk: "created", ver: id, exp: exp})
+	case errors.Is(err, gerrors.ErrExist):
+		c.add(event{t: t0, kind: kContTry, n: 4, res: "RExist", rk: "exist", exp: exp})
+	}
+	return ver, err
+}
+
 func (v holderView) Create(ctx context.Context, r kvs.Record) (string, error) {
 	c := v.c
 	c.mu.Lock()
+	if c.phase2 {
+		return v.create2(ctx, r)
+	}
 	if r.Key != c.key && c.key != "" {
 		c.oddities = append(c.oddities, "holder Create on another key "+r.Key)
 	}
@@ -153,6 +206,17 @@ func (v holderView) CasByVersion(ctx context.Context, r kvs.Record) (kvs.Record,
 		c.blackholed++
 		c.mu.Unlock()
 		return kvs.Record{}, errInjected
+	}
+	if c.phase2 && c.vers2[r.Version] {
+		// a renewal of the second tenure on the holder's Locker (only when the harness was delayed: noise)
+		res, err := c.inner.CasByVersion(ctx, r)
+		if err == nil {
+			c.newVer(res.Version)
+			c.vers2[res.Version] = true
+			c.contCAS++
+		}
+		c.mu.Unlock()
+		return res, err
 	}
 	c.holderCAS++
 	k := c.holderCAS
@@ -228,6 +292,17 @@ func (v holderView) Delete(ctx context.Context, key string) error {
 	defer c.mu.Unlock()
 	if c.dead || c.stopped {
 		return errInjected
+	}
+	if c.phase2 {
+		// Unlock of the second tenure on the holder's Locker
+		t0 := c.ts()
+		err := c.inner.Delete(ctx, key)
+		if err == nil {
+			c.add(event{t: t0, kind: kContUnlock, n: 4, res: "RDeleted", rk: "deleted"})
+		} else {
+			c.oddities = append(c.oddities, fmt.Sprintf("contender 4 Delete: %v", err))
+		}
+		return err
 	}
 	t0 := c.ts()
 	err := c.inner.Delete(ctx, key)
@@ -396,4 +471,15 @@ func (c *core) stop() {
 	default:
 		close(c.release)
 	}
+	select {
+	case <-c.createRelease:
+	default:
+		close(c.createRelease)
+	}
+}
+
+func (c *core) startPhase2() {
+	c.mu.Lock()
+	c.phase2 = true
+	c.mu.Unlock()
 }
